@@ -285,9 +285,9 @@ func run(e *core.Env) {
 			nb = nb[:1]
 		}
 		type end struct {
-			c          int
-			atB, atC   m.SwitchLabel
-			lat        uint16
+			c            int
+			atB, atC     m.SwitchLabel
+			lat          uint16
 			liteB, liteC bool
 		}
 		var ends []end
